@@ -331,7 +331,7 @@ pub fn run_scen(ctx: &Ctx) {
         sc.label = format!("c05seq.ntx{}", ntx);
         sc.tags.push(format!("c05:ntx{}", ntx));
         // the C02 oracle only understands "one header then one trailer"
-        emit(&mut out, &sc, &["c04", "c05", "c08"], true);
+        emit(&mut out, &sc, &["c04", "c05", "c05g", "c08"], true);
     }
     // ---- C05 dedup window: the same message twice, gap swept across the window edge
     for _ in 0..(if ctx.tier_thorough { 6000 } else { 600 }) {
@@ -372,6 +372,35 @@ pub fn run_scen(ctx: &Ctx) {
         sc.label = "c05lone".to_owned();
         sc.tags.push("c05:trailer_then_lone_burst".to_owned());
         emit(&mut out, &sc, &["c04", "c05", "c08"], true);
+    }
+    // ---- a decode error reported between a header and its repeat inside the window: header M with its middle
+    // burst lost, then (when M's first burst has left the history but its third has not) ONE stray burst of another
+    // header B — the pair [M3, B1] agrees only on `ZCZC-` and is reported as a decode error —, then M again (two
+    // bursts) inside the suppression window: the repeat must still be suppressed
+    for _ in 0..(if ctx.tier_thorough { 6000 } else { 600 }) {
+        let m = header_of_len(&mut rng, 0);
+        let mut b = header_of_len(&mut rng, 0);
+        while b == m {
+            b = header_of_len(&mut rng, 0);
+        }
+        let mut sc = Scenario::new(100);
+        let lat = rng.range(24, 64);
+        let pause = *rng.pick(&pauses);
+        sc.add_tx(&mut rng, 1, false, &m, &slots_from_mask(5, false), pause, lat);
+        let g1 = rng.range(2600, 4400);
+        sc.gap(g1);
+        sc.add_tx(&mut rng, 2, false, &b, &slots_from_mask(4, false), pause, lat);
+        // add_tx leaves the cursor after the (absent) third slot of B: come back to shortly after B's first burst
+        let slot = 8 * (16 + b.len() as u64);
+        sc.cursor -= 2 * (slot + pause);
+        let g2 = rng.range(700, 1500);
+        sc.gap(g2);
+        sc.add_tx(&mut rng, 3, false, &m, &slots_from_mask(6, false), pause, lat);
+        sc.finish();
+        sc.label = format!("c05errbetween.g{}.g{}", g1, g2);
+        sc.tags.push("c05:error_between_header_and_repeat".to_owned());
+        // (the subsequence oracle would attribute a second report to the third transmission: the window oracle judges)
+        emit(&mut out, &sc, &["c04", "c05w", "c05g", "c08"], true);
     }
     // ---- damaged prefixes: bursts that agree only on a short prefix of `NNNN` / `ZCZC-` (the framer lets a
     // prefix with up to two bit errors through): no message without two bursts agreeing on it
